@@ -294,6 +294,7 @@ func RunCheck(p *Program, cfg *CheckConfig, seed int) int {
 	solverTime := 0.0
 	var samples []map[string]interface{}
 	var failures []*OblResult
+	var bindFailures [][2]string
 	var slowest []slowObl
 	var engineErrors []string
 	notes := map[string]bool{}
@@ -303,7 +304,9 @@ func RunCheck(p *Program, cfg *CheckConfig, seed int) int {
 	for _, rep := range reports {
 		fnNames = append(fnNames, rep.Fn)
 		if rep.Err != "" {
-			engineErrors = append(engineErrors, rep.Fn+": "+rep.Err)
+			// the contract no longer fits the code (a clause names a variable, loop or call site that is gone, or the
+			// function left the modelled subset): none of the function's obligations can be established any more
+			bindFailures = append(bindFailures, [2]string{rep.Fn, rep.Err})
 		}
 		for _, n := range rep.Notes {
 			notes[n] = true
@@ -368,6 +371,91 @@ func RunCheck(p *Program, cfg *CheckConfig, seed int) int {
 		lines = append(lines, fmt.Sprintf("VIOLATION property=%s replay=%s obligation=%s status=%s%s", cfg.Property, path, f.Obl.Name, f.Res.Status, suffix))
 		exit = 1
 	}
+	// bounded stand-ins: safety obligations a contract declares "unchecked" (assumed: their justification lies outside
+	// the modelled subset, e.g. in a regular expression) are exercised on the REAL function for every small input;
+	// a panic found there is a violation with its input, no panic is reported as a bounded check - never as a proof.
+	var bounded []map[string]interface{}
+	if cfg.Only == "" || os.Getenv("LHV_BOUNDED") != "" {
+		type bres struct {
+			fn, anchors, verdict, path string
+		}
+		var jobs []*ssa.Function
+		for _, fn := range fns {
+			if cfg.Only != "" && !strings.Contains(FuncKey(fn), cfg.Only) {
+				continue
+			}
+			c := p.Contract(fn)
+			if c == nil || !hasProp(c.Extra["sweep"], cfg.Property) {
+				continue
+			}
+			for _, u := range c.Extra["unchecked"] {
+				if safetyKinds[strings.SplitN(u, ":", 2)[0]] {
+					jobs = append(jobs, fn)
+					break
+				}
+			}
+		}
+		results := make([]bres, len(jobs))
+		var wg sync.WaitGroup
+		for i, fn := range jobs {
+			wg.Add(1)
+			go func(i int, fn *ssa.Function) {
+				defer wg.Done()
+				c := p.Contract(fn)
+				var anchors []string
+				for _, u := range c.Extra["unchecked"] {
+					if safetyKinds[strings.SplitN(u, ":", 2)[0]] {
+						anchors = append(anchors, u)
+					}
+				}
+				name := FuncKey(fn) + "#bounded:unchecked-safety"
+				_ = os.MkdirAll(replayDir, 0o755)
+				path := filepath.Join(replayDir, sanitizeFile(name)+".json")
+				rec := map[string]interface{}{"property": cfg.Property, "obligation": name, "kind": "bounded", "function": FuncKey(fn),
+					"clause": "no panic at the safety obligations declared unchecked: " + strings.Join(anchors, ", "), "solver_status": "not-a-proof"}
+				data, _ := json.MarshalIndent(rec, "", " ")
+				_ = os.WriteFile(path, data, 0o644)
+				sub := *cfg
+				sub.WorkDir = filepath.Join(cfg.WorkDir, fmt.Sprintf("bounded%d", i))
+				_ = os.MkdirAll(sub.WorkDir, 0o755)
+				pseudo := &OblResult{Obl: &Obligation{Name: name, Kind: "bounds", Fn: FuncKey(fn), Src: "bounded stand-in"}}
+				results[i] = bres{FuncKey(fn), strings.Join(anchors, ", "), p.tryWitness(&sub, pseudo, path), path}
+			}(i, fn)
+		}
+		wg.Wait()
+		for _, r := range results {
+			how := "every input of small size over the function's byte constants, real function under recover(), go test -overlay (bounded, not a proof)"
+			if r.verdict != "" {
+				violations++
+				lines = append(lines, fmt.Sprintf("VIOLATION property=%s replay=%s obligation=%s#bounded:unchecked-safety status=panics %s", cfg.Property, r.path, r.fn, r.verdict))
+				exit = 1
+				bounded = append(bounded, map[string]interface{}{"function": r.fn, "stands_in_for": r.anchors, "result": r.verdict, "how": how})
+			} else {
+				bounded = append(bounded, map[string]interface{}{"function": r.fn, "stands_in_for": r.anchors, "result": "no panic for any enumerated input", "how": how})
+				if os.Getenv("LHV_KEEP") == "" {
+					_ = os.Remove(r.path)
+					_ = os.Remove(strings.TrimSuffix(r.path, ".json") + ".witness_test.go.txt")
+				}
+			}
+		}
+	}
+	for _, o := range orphaned {
+		bindFailures = append(bindFailures, [2]string{o, "the function this contract is written for no longer exists"})
+	}
+	for _, bf := range bindFailures {
+		violations++
+		_ = os.MkdirAll(replayDir, 0o755)
+		name := bf[0] + "#contract-binding"
+		path := filepath.Join(replayDir, sanitizeFile(name)+".json")
+		rec := map[string]interface{}{"property": cfg.Property, "obligation": name, "kind": "contract-binding", "function": bf[0],
+			"clause": "every clause of the function's contract binds to the code (named variables, loops and call sites exist; the body is inside the modelled subset)",
+			"solver_status": "not-generated", "solver_output": bf[1],
+			"note": "the obligations of this function were generated and discharged on the unchanged tree; on this tree they cannot be generated: " + bf[1]}
+		data, _ := json.MarshalIndent(rec, "", " ")
+		_ = os.WriteFile(path, data, 0o644)
+		lines = append(lines, fmt.Sprintf("VIOLATION property=%s replay=%s obligation=%s status=contract-does-not-bind (%s) no-failing-input-found", cfg.Property, path, name, truncate(firstLine(bf[1]), 200)))
+		exit = 1
+	}
 	engineErrors = append(engineErrors, p.FrozenErrors...)
 	if total == 0 && len(engineErrors) == 0 {
 		engineErrors = append(engineErrors, "no obligations generated for "+cfg.Property)
@@ -424,7 +512,7 @@ func RunCheck(p *Program, cfg *CheckConfig, seed int) int {
 	ev := Evidence{PropertyID: cfg.Property, Tier: cfg.Tier, Seed: seed, Level: "proof", WallS: round3(time.Since(start).Seconds()), Violations: violations,
 		Assumptions: assumptions,
 		Coverage: map[string]interface{}{
-			"obligations": total, "discharged": discharged, "slowest_discharged": slowList,
+			"obligations": total, "discharged": discharged, "slowest_discharged": slowList, "bounded_checks": bounded,
 			"discharged_by_solver": discharged, "known_findings_hit": known,
 			"checker_cmd":  fmt.Sprintf("lhv check --property %s --tier %s (z3-new/z3/cvc5 raced per obligation, timeout %ds)", cfg.Property, cfg.Tier, cfg.Timeout),
 			"trusted_base": []string{"golang.org/x/tools/go/ssa v0.29.0 (SSA construction)", "go/types", "z3 5.1.0", "z3 4.8.12", "cvc5 1.0.3", "lhv VC generator (/verif/internal/engine)"},
@@ -556,6 +644,9 @@ func (p *Program) undischargedPreconditions(fns []*ssa.Function) []string {
 								callers[callee] = map[string]bool{}
 							}
 							callers[callee][caller.Name()] = true
+							if os.Getenv("LHV_ENTRY") != "" {
+								fmt.Printf("ENTRY-PRE\t%s\t%s\t%s\n", strings.Join(props, ","), FuncKey(callee), FuncKey(caller))
+							}
 						}
 					}
 				}
